@@ -218,6 +218,15 @@ def patchTag (prop : List Char) (tags : List Atom) : Ty → Ty
   | .derived bases fields extra => .derived bases (patchFields prop tags fields) extra
   | t => t
 
+/-- `_parse_object_common_part`, `if required:` — the names collected from the property-less members of
+`allOf` (`{"required": […]}`) mark the class's OWN fields, AFTER they were built: `field.required = True`
+(also for a `const` member of v1-style output, whose constructor had made it optional). Fields are
+keyed by their JSON name here; `markRequired` below is the same step on fields that also carry their
+Python name. -/
+def markReq (xreq : List (List Char)) (fs : List (List Char × Bool × Cons × Ty)) :
+    List (List Char × Bool × Cons × Ty) :=
+  fs.map (fun f => if xreq.contains f.1 then (f.1, true, f.2.2.1, f.2.2.2) else f)
+
 mutual
 /-- `parse_obj` (ctx = top) / `parse_item` (otherwise) -/
 def tr (st : Style) (o : Opts) : Ctx → Schema → Ty
@@ -257,9 +266,9 @@ def tr (st : Style) (o : Opts) : Ctx → Schema → Ty
     -- (known finding D32); `parse_item` passes `ignore_duplicate_model=True`: a single base without own
     -- fields is used directly
     match ctx, refs, props with
-    | .top, _, _ => .derived refs (trProps st o (req ++ xreq) props) .unset
+    | .top, _, _ => .derived refs (markReq xreq (trProps st o req props)) .unset
     | _, [r], [] => .ref r
-    | _, _, _ => .derived refs (trProps st o (req ++ xreq) props) .unset
+    | _, _, _ => .derived refs (markReq xreq (trProps st o req props)) .unset
   | ctx, .disc _ prop refs mapping =>
     -- a member keeps the union and gets `Field(discriminator=…)`; a document / definition (`parse_obj`) and
     -- an array item (`if item.discriminator and parent and parent.is_array`) go through `parse_root_type`
@@ -281,6 +290,42 @@ def trAlts (st : Style) (o : Opts) : List Schema → List Ty
     -- a discriminated union nested in a union is parsed as a plain nested Union (its parent is no array)
     (if s.isDisc then .union (s.discRefs.map .ref) else tr st o (.item false) s) :: trAlts st o ss
 end
+
+/-! ### original name vs Python name (`required` at the allOf level)
+
+The IR above keys a member by its JSON name. The parser's field objects carry two names: `name` (what
+the field-name resolver made of the JSON name: `first-name` ↦ `first_name`, `class` ↦ `class_`, …; C06)
+and `original_name` (the JSON name). The step that applies an allOf-level `required` must look the
+collected names up by the ORIGINAL name. -/
+
+/-- a member as `_parse_object_common_part` holds it -/
+structure PField where
+  name : List Char
+  originalName : Option (List Char)
+  required : Bool
+  cons : Cons
+  ty : Ty
+
+/-- `parse_object_fields`; `nm` is the field-name resolver (any function: the statements below hold for
+every renaming). Every member gets `original_name` = its JSON name. -/
+def parseFields (st : Style) (o : Opts) (nm : List Char → List Char) (req : List (List Char))
+    (props : List (List Char × Schema)) : List PField :=
+  props.map (fun p => ⟨nm p.1, some p.1, req.contains p.1 && !constDefaulted st p.2,
+    fieldCons st o p.2, tr st o .plain p.2⟩)
+
+/-- `field.original_name or field.name` -/
+def PField.key (f : PField) : List Char := f.originalName.getD f.name
+
+/-- `if (field.original_name or field.name) in required: field.required = True` -/
+def markRequired (required : List (List Char)) (fs : List PField) : List PField :=
+  fs.map (fun f => if required.contains f.key then { f with required := true } else f)
+
+/-- the variant that looks the names up by the Python name (NOT what the code does; see C04) -/
+def markRequiredByName (required : List (List Char)) (fs : List PField) : List PField :=
+  fs.map (fun f => if required.contains f.name then { f with required := true } else f)
+
+/-- forget the Python name -/
+def PField.toIR (f : PField) : List Char × Bool × Cons × Ty := (f.key, f.required, f.cons, f.ty)
 
 /-- definitions are parsed by `parse_obj` -/
 def trDefs (st : Style) (o : Opts) : Defs → IRDefs
